@@ -30,6 +30,18 @@ import (
 
 func TestMain(m *testing.M) {
 	stats.Init("C05")
+	stats.RegisterReplay("atomic-move", func(raw json.RawMessage) error {
+		var c MoveCase
+		if err := json.Unmarshal(raw, &c); err != nil {
+			return err
+		}
+		for i := 0; i < 5; i++ { // schedule-dependent: several attempts
+			if err := checkMove(&c); err != nil {
+				return err
+			}
+		}
+		return nil
+	})
 	stats.RegisterReplay("concurrent-plan", func(raw json.RawMessage) error {
 		var p Plan
 		if err := json.Unmarshal(raw, &p); err != nil {
@@ -705,5 +717,107 @@ func TestPlans(t *testing.T) {
 			stats.NonTrivial(string(b))
 		}
 		stats.Sample(map[string]any{"writers": len(p.Writers), "readers": len(p.Readers), "first_writer_steps": p.Writers[0][:min(4, len(p.Writers[0]))], "first_reader_steps": p.Readers[0][:min(6, len(p.Readers[0]))]})
+	})
+}
+
+// ---- a request is routed against one committed version: a route moved between two methods by one transaction ----
+
+// MoveCase: a writer moves the route /mv back and forth between the methods ZZZ and GET, one transaction per move, while
+// readers request it. Every committed version answers GET /mv with 200 (route under GET) or with 405 and Allow: ZZZ (route
+// under ZZZ), and POST /mv with 405 and an Allow header naming exactly one of the two: any other answer mixes two versions.
+type MoveCase struct {
+	Fillers int `json:"fillers"` // other custom methods registered before ZZZ (they lengthen the per-method part of a 405 answer)
+	Readers int `json:"readers"`
+	Toggles int `json:"toggles"`
+}
+
+func checkMove(c *MoveCase) error {
+	f, err := fox.New(fox.WithNoMethod(true))
+	if err != nil {
+		return nil
+	}
+	h := func(fc fox.Context) { fc.Writer().WriteHeader(http.StatusOK) }
+	for i := 0; i < c.Fillers; i++ {
+		f.MustHandle(fmt.Sprintf("M%c%c", 'A'+i/26, 'A'+i%26), "/filler", h)
+	}
+	f.MustHandle("ZZZ", "/keep", h)
+	f.MustHandle("ZZZ", "/mv", h)
+	var done atomic.Bool
+	var wg sync.WaitGroup
+	var mu sync.Mutex
+	var bad []string
+	var served atomic.Int64
+	fail := func(format string, a ...any) {
+		mu.Lock()
+		if len(bad) < 3 {
+			bad = append(bad, fmt.Sprintf(format, a...))
+		}
+		mu.Unlock()
+	}
+	for r := 0; r < c.Readers; r++ {
+		wg.Add(1)
+		go func(r int) {
+			defer wg.Done()
+			defer func() {
+				if p := recover(); p != nil {
+					fail("reader %d: panic: %v", r, p)
+				}
+			}()
+			for i := 0; !done.Load() || i < 50; i++ {
+				method := "GET"
+				if (i+r)%3 == 0 {
+					method = "POST"
+				}
+				w := httptest.NewRecorder()
+				f.ServeHTTP(w, httptest.NewRequest(method, "/mv", nil))
+				served.Add(1)
+				allow := w.Header().Get("Allow")
+				switch {
+				case method == "GET" && w.Code == http.StatusOK:
+				case method == "GET" && w.Code == http.StatusMethodNotAllowed && allow == "ZZZ":
+				case method == "POST" && w.Code == http.StatusMethodNotAllowed && (allow == "ZZZ" || allow == "GET"):
+				default:
+					fail("%s /mv answered %d with Allow %q while one transaction per move puts the route under ZZZ or under GET: no committed version gives this answer", method, w.Code, allow)
+					return
+				}
+			}
+		}(r)
+	}
+	var werr error
+	for i := 0; i < c.Toggles && werr == nil; i++ {
+		from, to := "ZZZ", "GET"
+		if i%2 == 1 {
+			from, to = "GET", "ZZZ"
+		}
+		werr = f.Updates(func(txn *fox.Txn) error {
+			if _, err := txn.Delete(from, "/mv"); err != nil {
+				return err
+			}
+			_, err := txn.Handle(to, "/mv", h)
+			return err
+		})
+	}
+	done.Store(true)
+	wg.Wait()
+	stats.EvalN(int(served.Load()))
+	if werr != nil {
+		return fmt.Errorf("moving /mv between methods failed: %v", werr)
+	}
+	if len(bad) > 0 {
+		return fmt.Errorf("%s", strings.Join(bad, "; "))
+	}
+	return nil
+}
+
+func TestAtomicMove(t *testing.T) {
+	rapid.Check(t, func(t *rapid.T) {
+		c := &MoveCase{Fillers: gen.Pick(t, []int{0, 5, 40}, "fillers"), Readers: gen.IntR(t, 2, 8, "readers"), Toggles: gen.Pick(t, []int{200, 1000, 3000}, "toggles")}
+		stats.Sample(c)
+		stats.Class(fmt.Sprintf("atomic-move:fillers=%d", c.Fillers))
+		stats.NonTrivial(fmt.Sprintf("move|%+v", *c))
+		if err := checkMove(c); err != nil {
+			stats.Fail("atomic-move", c, "%v", err)
+			t.Fatalf("%v", err)
+		}
 	})
 }
